@@ -389,6 +389,7 @@ def r_teval_window(rep, hc):
     nonneg = lambda q: limits.nonneg(q, assume=lambda at: at in pos_fields)
     n_sites = 0
     problems = {}
+    undecoded = {}
     for dirn in ("fwd", "bwd"):
         sx = hc.dir_run(dirn)
         seq = [(nm, ev) for nm, ev in hc.pushes_of(sx) if nm in ("t", "y")]
@@ -413,9 +414,19 @@ def r_teval_window(rep, hc):
             key = "R-TEVAL-WINDOW:%s:site%d" % (hc.fn, k)
             ok = False
             wrong = False
-            for node, branch, cv in te.get("pc", []):
+            # the path condition, plus the facts that hold at the sample (a test left through `break` / `continue` on its other
+            # edge is not on the path-condition stack any more, but what it established still holds)
+            conds_ = list(te.get("pc", [])) + [(None, "then" if t_ else "else", c_) for c_, t_ in (te.get("facts") or [])]
+            for node, branch, cv in conds_:
                 a = cv.single_atom() if isinstance(cv, Poly) else None
                 d = DEFS.get(a) if a else None
+                # `if !in_window { continue }`: a negated test taken on its other edge
+                for _ in range(3):
+                    if d and d[0] == "not" and d[1] and isinstance(d[1][0], Poly) and d[1][0].single_atom():
+                        d = DEFS.get(d[1][0].single_atom())
+                        branch = "else" if branch == "then" else "then"
+                    else:
+                        break
                 if not d or d[0] not in ("ge", "gt", "le", "lt") or len(d[1]) != 2:
                     continue
                 l, r = d[1]
@@ -454,11 +465,29 @@ def r_teval_window(rep, hc):
                 problems.setdefault(key, []).append("when integrating %s the requested time is tested against xold in the %s form" % (
                     "backward" if dirn == "bwd" else "forward", "forward (t >= xold - tol)" if dirn == "bwd" else "backward (t <= xold + tol)"))
             else:
+                # a guard that is a joined boolean (`let in_step = if forward { a } else { b }; if !in_step { continue }`) is a
+                # test the rule cannot decode: not decided, rather than "no test"
+                def opaque_bool(cv_):
+                    a_ = cv_.single_atom() if isinstance(cv_, Poly) else None
+                    d_ = DEFS.get(a_) if a_ else None
+                    for _ in range(3):
+                        if d_ and d_[0] == "not" and d_[1] and isinstance(d_[1][0], Poly) and d_[1][0].single_atom():
+                            a_ = d_[1][0].single_atom()
+                            d_ = DEFS.get(a_)
+                        else:
+                            break
+                    return bool(a_) and (d_ is None or d_[0] in ("phi", "widen", "ifval", "matchval")) and a_ not in ("true", "false")
+                if any(opaque_bool(cv_) for _, _, cv_ in te.get("pc", [])):
+                    undecoded.setdefault(key, te["node"])
+                    continue
                 problems.setdefault(key, []).append("no comparison of the requested time with the step start xold guards this sample when integrating %s" % ("backward" if dirn == "bwd" else "forward"))
             problems[key].append(te["node"])
     for key, lst in problems.items():
         node = [x for x in lst if isinstance(x, dict)][0]
         rep.violation("R-TEVAL-WINDOW", key, "; ".join(x for x in lst if isinstance(x, str)), sp(node))
+    for key, node in undecoded.items():
+        if key not in problems:
+            rep.inconc("R-TEVAL-WINDOW", key, "this sample is guarded by a boolean joined from several tests, which the rule cannot decode into a comparison with xold", sp(node))
     if n_sites < 2:
         rep.inconc("R-TEVAL-WINDOW", "R-TEVAL-WINDOW:%s:floor" % hc.fn, "only %d interpolated sampling sites found" % n_sites)
     elif not problems:
@@ -1212,6 +1241,18 @@ class MarkMon(mon.Monitor):
         return (st,)
 
 
+def stores_prev(hc, z, depth=0):
+    """z copies into prev_event: directly, or by calling a private method of the handler that does"""
+    if z.get("k") == "MethodCall" and z.get("name") in ("copy_from_slice", "clone_from_slice", "clone_from") and hc.field_is(z["recv"], "prev_event"):
+        return True
+    if z.get("k") in ("MethodCall", "Call") and depth < 2:
+        d = z.get("def") or ""
+        b = hc.f.bodies.get(d)
+        if b is not None and "DefaultSolOut" in d and d != hc.body.get("def"):
+            return tast.contains(b["body"], lambda q: stores_prev(hc, q, depth + 1))
+    return False
+
+
 def r_evt_init_mark(rep, hc):
     """the test that turns off crossing detection ("this is the initial callback, only remember the event values") must be
     false on every later callback: it may compare xold with x, or test a field of the handler for emptiness / a flag that
@@ -1230,7 +1271,7 @@ def r_evt_init_mark(rep, hc):
             continue
         other = i_["then"] if in_else else i_["else"]
         # the other branch only stores the current event values
-        if tast.contains(other, lambda z: z.get("k") == "MethodCall" and z.get("name") in ("copy_from_slice", "clone_from_slice") and hc.field_is(z["recv"], "prev_event")) \
+        if tast.contains(other, lambda z: stores_prev(hc, z)) \
                 and not tast.contains(other, lambda z: z.get("k") == "For"):
             guard = (i_, in_else)
     if guard is None:
@@ -2659,6 +2700,7 @@ def r_prev_stable(rep, hc):
         out = []
         out += tast.find(region, lambda z: z.get("k") in ("Call", "MethodCall") and any(a.get("k") == "AddrOf" and a.get("mut") and is_prev(a) for a in z.get("args", [])))
         out += tast.find(region, lambda z: z.get("k") == "MethodCall" and z.get("name") in ("copy_from_slice", "clone_from_slice", "fill", "swap", "clone_from") and is_prev(z["recv"]))
+        out += tast.find(region, lambda z: z.get("k") in ("MethodCall", "Call") and not (z.get("k") == "MethodCall" and is_prev(z.get("recv") or {})) and stores_prev(hc, z))
         out += tast.find(region, lambda z: z.get("k") in ("Assign", "AssignOp") and is_prev(z["l"]))
         return out
     n_w = len(writes_in(body))
